@@ -640,3 +640,62 @@ def r9(R):
                             f.short, holder, cache, meth),
                         key='holder replaced without its cached method')
     R.require(n >= 1, 'no cached bound method found (FileStorage._index_get)')
+
+
+# ----------------------------------------------------------------- C09.R10
+@rule('C09.R10', 'a time-travel open (stop bound) takes a saved index only '
+      'after comparing what the index covers with the bound', props=['C15'],
+      min_instances=1)
+def r10(R):
+    cls = R.prog.cls(FS)
+    f = R.method(cls, '__init__')
+    g, b, F = R.cfg(f, cls, max_depth=0)
+    R.require('stop' in f.params, 'FileStorage.__init__ lost its stop bound')
+    # locals holding (parts of) the restored index
+    restored = set()
+    for s in walk_local(f.node):
+        if isinstance(s, ast.Assign) and isinstance(s.value, ast.Call) and \
+                dotted(s.value.func) == ('self', '_restore_index'):
+            for t in s.targets:
+                for x in ast.walk(t):
+                    if isinstance(x, ast.Name):
+                        restored.add(x.id)
+    R.require(restored, 'FileStorage.__init__ no longer restores an index')
+    seen = [0]
+
+    def edge(node, st, lab, tgt):
+        if node.kind == 'test' and lab in ('T', 'F') and st == 'unchecked':
+            names = {x.id for x in ast.walk(node.ast)
+                     if isinstance(x, ast.Name)}
+            if 'stop' in names:
+                return 'checked'
+        if lab in ('e', 'eb'):
+            return st
+        for op in F.ops(node):
+            if op.kind == 'call' and path_is(op.path,
+                                             ('self', '_restore_index')):
+                return 'unchecked'
+        return st
+
+    def at(node, st):
+        for op in F.ops(node):
+            if op.kind == 'call' and op.path and \
+                    op.path[-1].split('.')[-1] == 'read_index' and any(
+                        kw.arg in ('start', 'ltid')
+                        for kw in op.ast.keywords):
+                seen[0] += 1
+                if st == 'unchecked':
+                    return Violation(
+                        'FileStorage.__init__ continues from a saved index '
+                        'without having compared it with the stop bound: a '
+                        'time-travel open shows the transactions at and '
+                        'after `stop` whenever an index file exists, and '
+                        'stops where it should when it does not')
+        return st
+
+    vs, stats = explore(g, None, at=at, edge=edge)
+    R.count(stats)
+    R.instance('FileStorage.__init__', restored=sorted(restored))
+    R.require(seen[0] or vs, 'the index-based scan vanished from __init__')
+    for v in vs:
+        R.violation(v.node, v.message, g, v.path)
